@@ -453,7 +453,7 @@ def run(tier, seed):
         return j
 
     # D + B: TLC explores Zippy || P_C20, every transition replayed on the real code
-    for name, desc, b in family(tier) + ([] if quick else random_instances(rng, 5)):
+    for name, desc, b in family(tier) + ([] if quick else random_instances(rng, 8)):
         r = check_instance(name, desc, wd, maxhold=b["hold"], workers=8, timeout=1500)
         res.add_instance(r)
         if len(res.samples) < 4:
@@ -466,14 +466,14 @@ def run(tier, seed):
         if ds:
             pick = ds[:120] + rng.sample(ds[120:], min(len(ds) - 120, 80)) if len(ds) > 120 else ds
             groups["drift"].append(job(desc, "d:" + name, [complete(d["h"], desc) for d in pick]))
-        groups["attempts"].append(job(desc, "a:" + name, chord_attempts(desc, rng, limit=250 if quick else 1500)))
+        groups["attempts"].append(job(desc, "a:" + name, chord_attempts(desc, rng, limit=250 if quick else 2000)))
         groups["random"].append(job(desc, "r:" + name, [rand_typing(rng, desc, rng.randint(4, 40)) for _ in range(20 if quick else 150)]))
     # C beyond the bounds of the exhaustive instances: random dictionaries (<= 4 lines over {a, b, c, space}), larger
     # deadlines, both shifts / altgr, the quantifier's attempts and random typing
-    for i in range(10 if quick else 60):
+    for i in range(10 if quick else 100):
         desc = rand_dict(rng, tier)
-        groups["attempts"].append(job(desc, "a:rd%d" % i, chord_attempts(desc, rng, limit=120 if quick else 400)))
-        groups["random"].append(job(desc, "r:rd%d" % i, [rand_typing(rng, desc, rng.randint(4, 60)) for _ in range(30 if quick else 100)]))
+        groups["attempts"].append(job(desc, "a:rd%d" % i, chord_attempts(desc, rng, limit=120 if quick else 500)))
+        groups["random"].append(job(desc, "r:rd%d" % i, [rand_typing(rng, desc, rng.randint(4, 60)) for _ in range(30 if quick else 120)]))
     nrej = 0
     classes = {}
     for label in ("witness", "drift", "attempts", "random"):
